@@ -646,3 +646,120 @@ func (w *world) cappedLocalCoverage(before, after *Snapshot, deps []*lib.DexLiqu
 		}
 	}
 }
+
+// seednext is a set-up operation (like fund/setpool): it stores a next batch directly and mints its pending amounts
+// into the holding pool, so that a case can start with a batch near MaxDepositsPerDexBatch / MaxOrdersPerDexBatch.
+func (w *world) seednext(env string, chain uint64, b *lib.DexBatch) {
+	var pend uint64
+	for _, o := range b.Orders {
+		pend += o.AmountForSale
+	}
+	for _, d := range b.Deposits {
+		pend += d.Amount
+	}
+	w.step(env, fmt.Sprintf("seednext %d %s", chain, ShowBatch(b)), pend, func(sm *fsm.StateMachine) lib.ErrorI {
+		if err := sm.PoolAdd(chain+holdingAdd, pend); err != nil {
+			return err
+		}
+		return sm.SetDexBatch(fsm.KeyForNextBatch(chain), proto.Clone(b).(*lib.DexBatch))
+	})
+}
+
+// sameCapCase: IncludeSameBlockDex at the per-batch caps. A batch with almost MaxDepositsPerDexBatch deposits (and
+// sometimes almost MaxOrdersPerDexBatch orders) is locked in this block; more deposits/orders arrive in the same
+// block than still fit; at the end of the block only a prefix may move into the locked batch and the surplus must
+// stay queued in next (its tokens stay in the holding pool and stay accounted for). Then the locked batch is
+// settled through the receipts path with its ~5000 deposits.
+func (w *world) sameCapCase(target bool) {
+	w.chains = []uint64{2}
+	w.initEnv("R", 1, 1, 0, 2)
+	for i, a := range w.addrs {
+		amt := uint64(w.r.Int63n(1 << 50))
+		if i == 0 {
+			amt = 1 << 60
+		}
+		w.fund("R", a, amt)
+	}
+	pool := uint64(1_000_000_000 + w.r.Int63n(1<<40))
+	w.setpool("R", 2+liquidityAdd, pool, 20, []*lib.PoolPoints{{Address: dead, Points: 10}, {Address: w.addrs[0], Points: 10}})
+	// the seeded next batch
+	nDep := lib.MaxDepositsPerDexBatch - w.r.Intn(4)
+	nOrd := 0
+	switch w.r.Intn(3) {
+	case 0:
+		nOrd = lib.MaxOrdersPerDexBatch - w.r.Intn(3)
+	case 1:
+		nOrd = w.r.Intn(3)
+	}
+	if target { // the scenario itself, whatever the seed: 2 free deposit slots, 5 same-block deposits, no order overflow
+		nDep, nOrd = lib.MaxDepositsPerDexBatch-2, 1
+	}
+	b := &lib.DexBatch{Committee: 2, PoolSize: pool}
+	for i := 0; i < nDep; i++ {
+		b.Deposits = append(b.Deposits, &lib.DexLiquidityDeposit{Address: w.addrs[i%len(w.addrs)], Amount: uint64(1 + w.r.Intn(1000)), OrderId: w.freshID()})
+	}
+	for i := 0; i < nOrd; i++ {
+		b.Orders = append(b.Orders, &lib.DexLimitOrder{Address: w.addrs[i%len(w.addrs)], AmountForSale: uint64(1 + w.r.Intn(1000)), RequestedAmount: 1, OrderId: w.freshID()})
+	}
+	w.seednext("R", 2, b)
+	// the batch locks in this block
+	w.dexbatch("R", 2, false, &lib.DexBatch{Committee: 1, PoolSize: uint64(1_000_000 + w.r.Int63n(1<<40))})
+	// same-block arrivals: more deposits than still fit; orders/withdrawals all fit or are absent
+	kd := 1 + w.r.Intn(7)
+	if target {
+		kd = 5
+	}
+	for i := 0; i < kd; i++ {
+		w.deposit("R", 2, w.addr(), uint64(1+w.r.Intn(5000)), w.freshID())
+	}
+	ko := 0
+	if nOrd < lib.MaxOrdersPerDexBatch-8 && w.r.Intn(2) == 0 {
+		ko = 1 + w.r.Intn(3)
+	}
+	if nOrd >= lib.MaxOrdersPerDexBatch-3 && w.r.Intn(2) == 0 {
+		ko = 1 + w.r.Intn(5) // orders overflow too
+	}
+	for i := 0; i < ko; i++ {
+		w.limit("R", 2, w.addr(), uint64(1+w.r.Intn(5000)), 1, w.freshID())
+	}
+	if w.r.Intn(2) == 0 {
+		w.withdraw("R", 2, w.addrs[0], uint64(1+w.r.Intn(50)), w.freshID())
+	}
+	e := w.envs["R"]
+	before, _ := e.Snapshot(w.chains)
+	w.endblock("R")
+	after, _ := e.Snapshot(w.chains)
+	if lb, la := before.Locked[2], after.Locked[2]; lb != nil && la != nil {
+		moved := len(la.Deposits) - len(lb.Deposits)
+		left := 0
+		if after.Next[2] != nil {
+			left = len(after.Next[2].Deposits)
+		}
+		switch {
+		case len(la.Deposits) == lib.MaxDepositsPerDexBatch && moved < kd && (after.Next[2] == nil || len(after.Next[2].Orders) == 0 && len(after.Next[2].Withdrawals) == 0):
+			w.o.Count("samecap:deposits-overflow-orders-and-withdrawals-all-moved")
+		case len(la.Deposits) == lib.MaxDepositsPerDexBatch && moved < kd:
+			w.o.Count("samecap:deposits-overflow-other-lists-overflow-too")
+		case moved == kd:
+			w.o.Count("samecap:all-deposits-fit")
+		}
+		if left > 0 {
+			w.o.Count("samecap:surplus-deposits-stay-in-next")
+		}
+	}
+	// the next block: the counter chain answers; the ~5000 deposits are settled; the surplus rotates
+	lb, _ := e.SM.GetDexBatch(2, true)
+	e.SM.ResetCaches()
+	if lb != nil && !lb.IsEmpty() {
+		r := &lib.DexBatch{Committee: 1, PoolSize: uint64(1_000_000 + w.r.Int63n(1<<40)), ReceiptHash: lb.Hash()}
+		for range lb.Orders {
+			if w.r.Intn(2) == 0 {
+				r.Receipts = append(r.Receipts, 0)
+			} else {
+				r.Receipts = append(r.Receipts, uint64(1+w.r.Intn(100)))
+			}
+		}
+		w.dexbatch("R", 2, false, r)
+	}
+	w.endblock("R")
+}
